@@ -133,7 +133,7 @@ def make_cases(ctx, sc, impls, sections, queries_json, keys, select=None, walks=
 
 
 def run_family(ctx, prop, scenarios, impls, sections, select=None, meta_rule="", level="model_checking",
-               assumptions=None):
+               assumptions=None, finish=True):
     """Common body of the MutableWorld family checks."""
     binary = ctx.go_build("vh-world")
     rng = random.Random(ctx.seed * 7919 + 13)
@@ -176,4 +176,6 @@ def run_family(ctx, prop, scenarios, impls, sections, select=None, meta_rule="",
         ctx.traces_validated += len(cases)
     ctx.extra_cov["spec_transitions_exported"] = total_edges
     ctx.extra_cov["paths_per_impl"] = total_paths
+    if not finish:
+        return None
     return ctx.finish(level, rule=meta_rule, assumptions=assumptions or [], exhaustive=False)
